@@ -168,6 +168,7 @@ struct Direct {
 };
 
 // ---------------------------------------------------------------- socket transport
+bool g_stuck{false};     // the server stopped answering: do not wait for it again in this process
 struct Socket {
     SocketTestingSetup& setup;
     Mutex mutex;
@@ -197,18 +198,20 @@ struct Socket {
         server.ClearConnectedClients();
         server.StopListening();
     }
-    // One more client that sends a complete HTTP/1.0 request; when the server has answered it and closed it (EOF), the I/O loop has
-    // finished at least one full pass over all clients since the moment this function was called.
+    // One more client that sends a complete request with "Connection: close"; when the server has answered it and closed it (EOF), the
+    // I/O loop has finished at least one full pass over all clients since the moment this function was called.
     void Sentinel()
     {
-        static const std::string req{"GET /__sentinel HTTP/1.0\r\n\r\n"};
+        static const std::string req{"GET /__sentinel HTTP/1.1\r\nConnection: close\r\n\r\n"};
         auto p = setup.ConnectClient(std::as_bytes(std::span(req)));
         char b;
-        for (int i = 0; i < 60000; ++i) {
+        const auto deadline = std::chrono::steady_clock::now() + 20s;
+        while (std::chrono::steady_clock::now() < deadline) {
             if (p->send.GetBytes(&b, 1, MSG_PEEK) == 0) return;   // EOF: replied and disconnected
             if (p->send.GetBytes(&b, 1, 0) < 0) std::this_thread::sleep_for(1ms);
         }
-        throw std::runtime_error("harness: the HTTP server does not answer the sentinel request");
+        g_stuck = true;
+        throw std::runtime_error("the HTTP server does not answer and close a 'Connection: close' request within 20 s");
     }
     void Deliver(const std::string& bytes)
     {
@@ -268,6 +271,8 @@ int ReplayMode(const std::string& path, const std::string& streams_path, const s
             if (transport == "direct") {
                 Direct d;
                 why = RunSteps(d, toks, t["steps"], [&] { return d.seen; });
+            } else if (g_stuck) {
+                why = "skipped: the HTTP server stopped answering in an earlier test of this run";
             } else {
                 Socket s(setup);
                 why = RunSteps(s, toks, t["steps"], [&] { return s.SeenCopy(); });
